@@ -419,7 +419,12 @@ impl<'env> Executor<'env> {
                 Instruction::Emit => {
                     let value = stack.pop();
                     #[cfg(feature = "verif_hooks")]
-                    crate::verif_hooks::output::on_emit(out.verif_id(), &value);
+                    crate::verif_hooks::output::on_emit(
+                        out.verif_id(),
+                        &value,
+                        state.auto_escape,
+                        state.env().is_default_formatter(),
+                    );
                     if state.env().is_default_formatter() {
                         if strict_undefined
                             && matches!(value.0, ValueRepr::Undefined(UndefinedType::Default))
